@@ -239,7 +239,12 @@ class C08(Prop):
             elif k == 8:
                 p = lib.cJSON_CreateObject()
             elif k == 9:
-                p = lib.cJSON_CreateStringReference(lib.shim_key(A["target"]) or lib.shim_valuestring(A["target"]) or None)
+                text = lib.shim_key(A["target"]) or lib.shim_valuestring(A["target"]) or None
+                if text is None:
+                    # a string reference to nothing (a string item without text) is outside every domain: a constructor that refuses it
+                    # is as good as one that returns such an item (no verdict when the fault-free call refuses)
+                    pre.args["oddity"] = True
+                p = lib.cJSON_CreateStringReference(text)
             elif k == 10:
                 p = lib.cJSON_CreateArrayReference(A["target"])
             else:
